@@ -490,6 +490,12 @@ where
       // New scope for the guard
       let mut guard = shard.map.write();
       removed_entry = guard.remove_entry(key);
+      // The policy is told while the shard is still locked: a re-insert of this key (and the
+      // admission of the new entry) must not overtake this call, or the policy would forget
+      // an entry that is resident and could never evict it.
+      if let Some((found_key, _)) = &removed_entry {
+        self.shared.get_cache_policy(key).on_remove(found_key);
+      }
     } // `guard` (and L_shard) is released here.
 
     if let Some((found_key, entry)) = removed_entry {
@@ -502,7 +508,6 @@ where
         }
       }
 
-      self.shared.get_cache_policy(key).on_remove(&found_key);
       self
         .shared
         .metrics
